@@ -51,6 +51,12 @@ check("C05", "exploration",
   "Alphabets of 4-6 values per type and <=3 pages; a NaN bound on a unit holding only NaN is accepted (it bounds nothing and readers must ignore it); copy-path statistics are covered by C11's check.",
   "DESIGN.md §2 C05")
 
+check("C07", "exploration",
+  "bounded exhaustive enumeration of physical type x repetition x filter build path x value set x bits-per-value x open option on the real writer and reader; oracle = every written non-null value probes true through ColumnChunk.BloomFilter().Check and through spec hashing of the raw bitset by the independent decoder",
+  "14 physical/fixed-length types x required/optional/repeated x 12 build paths (incremental, dictionary, dictionary->PLAIN fallback, small pages, several row groups, deferred, gzip-compressed, data page v1, WriteRowGroup of a buffer / verbatim copy / re-encode / source without filter) x value sets (all sequences of <=3 boundary values, n distinct values around the 128-hash buffer and 256, few values repeated) x bits per value {10,1} x {default, prefetched, lazily loaded} filters. A mismatch between the bulk write-side hashing and the per-value read-side hashing of any type, or a filter missing part of a chunk, shows up as a false negative on an enumerated value.",
+  "Small value alphabets; the values probed are those read back from each row group (C01 ties them to what was written); encryption of filters is C18's.",
+  "DESIGN.md §2 C07")
+
 NOT_YET = "check not built yet in this round (design in DESIGN.md §2); not claimed until its check exists"
 
 m = {
